@@ -59,7 +59,14 @@ func libCalc(e *eap.EAP, key []byte) (mac []byte, err error) {
 // receiverVerdict decodes w and reports the carried AT_MAC and the value the receiver computes.
 func receiverVerdict(w, key []byte) (carried, computed []byte, err error) {
 	r := new(eap.EAP)
-	if err = probe.Try(func() error { return r.Unmarshal(probe.Exact(w)) }); err != nil {
+	if len(w) >= 8 && w[4] == 50 && w[1]%4 == 3 && int(w[2])<<8|int(w[3]) == len(w) {
+		// the receiver reads the four header octets itself and hands the rest (type octet onwards) to the method's own decoder
+		inner := new(eap.EapAkaPrime)
+		if err = probe.Try(func() error { return inner.Unmarshal(probe.Exact(w[4:])) }); err != nil {
+			return nil, nil, err
+		}
+		r = &eap.EAP{Code: eap.EapCode(w[0]), Identifier: w[1], EapTypeData: inner}
+	} else if err = probe.Try(func() error { return r.Unmarshal(probe.Exact(w)) }); err != nil {
 		return nil, nil, err
 	}
 	ak, ok := r.EapTypeData.(*eap.EapAkaPrime)
@@ -297,6 +304,35 @@ func c15Oracle(in c15In) probe.Outcome {
 				want2, err := refMAC(in.Key, w2)
 				if err != nil || !bytes.Equal(m2, want2) {
 					return probe.Fail("MAC of a decoded-then-modified packet is not the MAC over that packet as sent (%x vs %x, %v)", m2, want2, err)
+				}
+			}
+		}
+	}
+	// a receiver that answers with the decoded packet (a library-built one: its octets are what the library writes itself)
+	// after editing the HEADER fields - code and identifier are exported fields - gets the MAC of the packet as it is then
+	if !in.RefBuilt {
+		r := new(eap.EAP)
+		if err := probe.Try(func() error { return r.Unmarshal(probe.Exact(w)) }); err == nil {
+			if ak, ok := r.EapTypeData.(*eap.EapAkaPrime); ok {
+				r.Identifier ^= 0x5a
+				r.Code = 3 - r.Code&1 // request <-> response
+				m2, err := libCalc(r, in.Key)
+				if err != nil {
+					return probe.Fail("CalcEapAkaPrimeAtMAC on a decoded packet whose header fields were edited: %v", err)
+				}
+				var w2 []byte
+				if err := probe.Try(func() error {
+					if e := ak.SetAttr(eap.AT_MAC, m2); e != nil {
+						return e
+					}
+					var e error
+					w2, e = r.Marshal()
+					return e
+				}); err != nil {
+					return probe.Fail("marshalling the decoded packet with edited header fields: %v", err)
+				}
+				if want2, err := refMAC(in.Key, w2); err != nil || !bytes.Equal(m2, want2) {
+					return probe.Fail("MAC of a decoded packet whose code / identifier were edited is not the MAC over that packet as sent (%x vs %x, %v)", m2, want2, err)
 				}
 			}
 		}
